@@ -6,6 +6,7 @@ mod alpha;
 mod catalogue;
 mod checks;
 mod explore;
+mod lo;
 mod q;
 mod refs;
 mod refs_ehlers;
@@ -85,7 +86,7 @@ fn main() {
                 eprintln!("MACHINERY ERROR: watchdog fired after {} s", limit);
                 std::process::exit(2);
             });
-            if let Err(e) = q::self_test().and_then(|_| refs::self_test()) {
+            if let Err(e) = q::self_test().and_then(|_| lo::self_test()).and_then(|_| refs::self_test()) {
                 eprintln!("MACHINERY ERROR: {}", e);
                 std::process::exit(2);
             }
